@@ -337,9 +337,26 @@ fn main() {
         r.emit();
     }
 
-    let bs = lattice_b();
-    let fs = lattice_f();
-    let dense: u64 = if cli.thorough { 160 } else { 96 };
+    let mut bs = lattice_b();
+    let mut fs = lattice_f();
+    if cli.thorough {
+        // every power of two and of ten with both neighbours, as reading and as frequency
+        for k in 1..64u32 {
+            let p = 1u64 << k;
+            bs.extend([p - 1, p, p + 1]);
+            fs.extend([p - 1, p, p + 1]);
+        }
+        let mut p = 1u64;
+        for _ in 0..19 {
+            p *= 10;
+            fs.extend([p - 1, p, p + 1]);
+        }
+        bs.sort_unstable();
+        bs.dedup();
+        fs.sort_unstable();
+        fs.dedup();
+    }
+    let dense: u64 = if cli.thorough { 512 } else { 96 };
 
     // (a) lattice
     let nb = bs.len() as u64;
@@ -352,8 +369,11 @@ fn main() {
         r.sample(i, || json!({"a":a.to_string(),"b":b.to_string(),"f":f.to_string(),"ps":verif::tsc_duration_since(b,a,f).to_string()}));
     });
     // derived properties on sorted triples a<=m<=b of the lattice
-    par_for(nb * nb * nb, |i| {
-        let (x, y, z) = (bs[(i / (nb * nb)) as usize], bs[((i / nb) % nb) as usize], bs[(i % nb) as usize]);
+    // (over the base lattice of readings; the frequencies are the tier's)
+    let bs0 = lattice_b();
+    let nb0 = bs0.len() as u64;
+    par_for(nb0 * nb0 * nb0, |i| {
+        let (x, y, z) = (bs0[(i / (nb0 * nb0)) as usize], bs0[((i / nb0) % nb0) as usize], bs0[(i % nb0) as usize]);
         if x <= y && y <= z {
             for &f in &fs {
                 check_derived(&r, x, y, z, f);
@@ -369,6 +389,34 @@ fn main() {
         check_triple(&r, a, b, f);
         r.case(1);
     });
+    // (b'') thorough: windows of differences d = m*f + delta around whole multiples of the frequency (whole
+    // seconds) and dense small differences, from bases at both ends of the range
+    if cli.thorough {
+        let bases: [u64; 6] = [0, 1, (1 << 32) - 1, 1 << 63, u64::MAX - (1 << 40), u64::MAX - 5000];
+        let ms: [u64; 12] = [0, 1, 2, 3, 9, 10, 999, 1000, 18_446_743, 18_446_744, 18_446_745, 1 << 40];
+        let nfs = fs.len() as u64;
+        par_for(nfs * bases.len() as u64, |i| {
+            let f = fs[(i % nfs) as usize];
+            let a = bases[(i / nfs) as usize];
+            let mut n = 0u64;
+            for d in 0..4096u64 {
+                if let Some(b) = a.checked_add(d) {
+                    check_triple(&r, a, b, f);
+                    n += 1;
+                }
+            }
+            for m in ms {
+                for delta in -3i64..=3 {
+                    let Some(mf) = m.checked_mul(f) else { continue };
+                    let d = if delta < 0 { mf.checked_sub((-delta) as u64) } else { mf.checked_add(delta as u64) };
+                    let Some(b) = d.and_then(|d| a.checked_add(d)) else { continue };
+                    check_triple(&r, a, b, f);
+                    n += 1;
+                }
+            }
+            r.case(n);
+        });
+    }
     // (b') OS instants: all pairs of offsets over a lattice up to about 292 years
     let os: Vec<u64> = bs.iter().copied().filter(|x| *x < (1u64 << 62)).collect();
     let no = os.len() as u64;
@@ -455,7 +503,7 @@ fn main() {
 
     r.set_bounds(json!({
         "reported_precision_processes": jobs.len(),
-        "lattice_B": bs.len(), "lattice_F": fs.len(), "dense_cube": dense,
+        "lattice_B": bs.len(), "lattice_F": fs.len(), "dense_cube": dense, "difference_windows": if cli.thorough { "6 bases x every frequency x (d < 4096 and m*f + [-3,3] for 12 multiples m)" } else { "thorough only" },
         "durations": durations().len(), "precision_cases": precision_cases,
         "reference": "256-bit integer floor((b-a)*10^12/f)"
     }));
